@@ -23,7 +23,7 @@ import random as _random
 STRUCTS = [('2.5', 'ADT_A01'), ('2.5', 'OML_O33'), ('2.5', 'RSP_K21'), ('2.3', 'ADT_A01'), ('2.4', 'ORM_O01'), ('2.6', 'ADT_A04'),
            ('2.7', 'ORU_R01'), ('2.5', 'SIU_S12'), ('2.5.1', 'ADT_A08'), ('2.8', 'ADT_A01'), ('2.5', 'VXU_V04')]
 STRUCTS = [(v, m) for v, m in STRUCTS if m in T.LIBS[v].MESSAGES]
-_rest = [(v, m) for v in T.VERSIONS for m in T.MSGS[v] if (v, m) not in STRUCTS and m == m.upper() and
+_rest = [(v, m) for v in T.VERSIONS for m in T.MSGS[v] if (v, m) not in STRUCTS and m == m.upper() and '_' in m and
          all(n in T.SEGS[v] and T.seg_children(v, n) is not None for n in B.structure_names(T.LIBS[v].MESSAGES[m]))]
 STRUCTS += _random.Random(1800 + __import__('vlib.chglue', fromlist=['SEED']).SEED).sample(_rest, 120 if THOROUGH else 30)
 NS = len(STRUCTS)
